@@ -561,7 +561,11 @@ func (f *dataFamily) WriteRows(rows []*metric.StorageRow) error {
 		return err
 	}
 	db.AcquireWrite()
+	// a family has one local replicator (one goroutine) per leader log: the memory database is written
+	// by one batch at a time (WriteRow must be called after WithLock).
+	release := db.WithLock()
 	defer func() {
+		release()
 		f.statistics.WriteBatches.Incr()
 		db.CompleteWrite()
 	}()
